@@ -103,3 +103,41 @@ let () =
         let mat f m = if m = [] then "_" else String.concat "|" (List.map (fun r -> String.concat "" (List.map f r)) m) in
         tok_of_rrows rs ^ "#" ^ tok_of_rrows prs ^ "#" ^ mat tok_of_bool less ^ "#" ^ mat sign cm
     | _ -> failwith "c10.rep args")
+
+(* c10.sw <sorting> <maxrows> <dedupe> <keep_last> <ops>      the SortingWriter
+     sorting   as for c10.run (column indexes refer to the cells of a row)
+     maxrows   sortRowCount (hex);  dedupe = DropDuplicatedRows;  keep_last = 1 models
+               the writer without "defer w.dedupe.reset()" (used by tests of the check only)
+     ops '/' separated:  W<rows> (rows '|' separated, cells ';' separated as for c10.run)  F (Flush)
+               C (Close)  R (Reset); the rows are numbered 0,1,2,... in the order they appear
+   answer: the row numbers of every closed file in order: files '|' separated, numbers ',' separated (hex) *)
+let cell_of_wtok t =
+  match wval_of_tok t with
+  | Model.WVal v -> (Some v, Model.N0)
+  | Model.WNull d -> (None, d)
+
+let () =
+  register "c10.sw" (function
+    | [sorting; maxrows; dedupe; keep; ops] ->
+        let sorting = list_of_tok sortcol_of_tok sorting in
+        let next = ref 0 in
+        let op_of t =
+          if String.length t = 0 then failwith "op" else
+          let rest = String.sub t 1 (String.length t - 1) in
+          match t.[0] with
+          | 'W' ->
+              let rows = if rest = "" then [] else String.split_on_char '|' rest in
+              Model.SWWrite (List.map (fun r ->
+                let id = !next in incr next;
+                (nat_of_int id, List.map cell_of_wtok (String.split_on_char ';' r))) rows)
+          | 'F' -> Model.SWFlush
+          | 'C' -> Model.SWClose
+          | 'R' -> Model.SWReset
+          | _ -> failwith "op kind" in
+        let ops = if ops = "_" then [] else List.map op_of (String.split_on_char '/' ops) in
+        let files = Model.c10_sw sorting (nat_of_int (int_of_string ("0x" ^ maxrows)))
+                      (bool_of_tok dedupe) (bool_of_tok keep) ops in
+        if files = [] then "_" else
+        String.concat "|" (List.map (fun f ->
+          if f = [] then "_" else String.concat "," (List.map (fun n -> Printf.sprintf "%x" (int_of_nat n)) f)) files)
+    | _ -> failwith "c10.sw args")
